@@ -87,14 +87,23 @@ def py_ty(t):
         return f"List[{py_ty(t[1])}]"
     if k == "dict":
         return f"Dict[str, {py_ty(t[1])}]"
+    if k == "dictk":
+        return f"Dict[{t[1]}, {py_ty(t[2])}]"
+    if k == "tuple":
+        return "Tuple[" + ", ".join(py_ty(x) for x in t[1]) + "]"
     if k == "opt":
         return f"Optional[{py_ty(t[1])}]"
     return t[1]
 
 
 def gen_ty(rng, names, depth, native):
-    ch = ["leaf"] * 5 + (["data"] * 2 if names else []) + (["list", "dict", "opt"] if depth > 0 else [])
+    ch = ["leaf"] * 5 + (["data"] * 2 if names else []) + (["list", "dict", "dictk", "tuple", "opt"] if depth > 0 else [])
     k = rng.choice(ch)
+    if k == "dictk":
+        # mapping keys other than str: what the format's own parser accepts as a key differs per format/option
+        return ("dictk", rng.choice(["int", "int", "date", "bool", "UUID"]), gen_ty(rng, names, depth - 1, native))
+    if k == "tuple":
+        return ("tuple", [gen_ty(rng, names, depth - 1, native) for _ in range(rng.randint(1, 3))])
     if k == "leaf":
         # the format's native types are drawn more often
         return ("leaf", rng.choice(LEAVES + list(native) * 3))
@@ -198,6 +207,10 @@ def gen_val(rng, sc, mod, t):
         return [gen_val(rng, sc, mod, t[1]) for _ in range(rng.randint(0, 2))]
     if k == "dict":
         return {kk: gen_val(rng, sc, mod, t[1]) for kk in rng.sample(["a", "b"], rng.randint(0, 2))}
+    if k == "dictk":
+        return {gen_leaf(rng, t[1]): gen_val(rng, sc, mod, t[2]) for _ in range(rng.randint(0, 2))}
+    if k == "tuple":
+        return tuple(gen_val(rng, sc, mod, x) for x in t[1])
     if k == "opt":
         return None if rng.random() < 0.3 else gen_val(rng, sc, mod, t[1])
     fields = [c for c in sc.classes if c[0] == t[1]][0][2]
@@ -216,6 +229,64 @@ def _loads():
 LOADS = _loads()
 
 
+def _dumps():
+    import json
+    import msgpack
+    import orjson
+    import tomli_w
+    import yaml
+    return {
+        "msgpack": [lambda o: msgpack.packb(o, use_bin_type=True), lambda o: msgpack.packb(o, use_bin_type=False)],
+        "orjson": [lambda o: orjson.dumps(o, option=orjson.OPT_NON_STR_KEYS)],
+        "json": [lambda o: json.dumps(o), lambda o: json.dumps(o, indent=1)],
+        "yaml": [lambda o: yaml.safe_dump(o), lambda o: yaml.safe_dump(o, default_flow_style=True)],
+        "toml": [lambda o: tomli_w.dumps(o)],
+    }
+
+
+DUMPS = _dumps()
+
+
+def parse_lenient(fmt, wire):
+    import msgpack
+    import tomllib
+    if fmt == "msgpack":
+        return msgpack.unpackb(wire, raw=False, strict_map_key=False)
+    if fmt == "toml":
+        return tomllib.loads(wire if isinstance(wire, str) else wire.decode())
+    return LOADS[fmt](wire)
+
+
+def perturb(rng, o, depth=0):
+    """a foreign document of the same format: other key types, other scalar types, missing/extra entries"""
+    if isinstance(o, dict):
+        out = {}
+        for k, v in o.items():
+            r = rng.random()
+            if r < 0.1:
+                continue
+            if r < 0.3 and isinstance(k, str) and k.lstrip("-").isdigit():
+                k = int(k)
+            elif r < 0.3 and isinstance(k, int) and not isinstance(k, bool):
+                k = str(k)
+            out[k] = perturb(rng, v, depth + 1) if rng.random() < 0.6 else v
+        if rng.random() < 0.35:
+            out[rng.choice([1, 0, 7, "zz", "1"])] = rng.choice([1, "x", None, [], {}])
+        return out
+    if isinstance(o, list):
+        return [perturb(rng, x, depth + 1) if rng.random() < 0.5 else x for x in o]
+    r = rng.random()
+    if r < 0.6:
+        return o
+    if isinstance(o, bool):
+        return rng.choice([0, "true", None])
+    if isinstance(o, int):
+        return rng.choice([str(o), float(o), None, {1: o}])
+    if isinstance(o, str):
+        return rng.choice([o + "x", 5, None, [o], {1: o}])
+    return rng.choice([None, 1, "s"])
+
+
 def leaves_of(sc, t, seen=None):
     seen = set() if seen is None else seen
     k = t[0]
@@ -223,6 +294,13 @@ def leaves_of(sc, t, seen=None):
         return {t[1]}
     if k in ("list", "dict", "opt"):
         return leaves_of(sc, t[1], seen)
+    if k == "dictk":
+        return {t[1]} | leaves_of(sc, t[2], seen)
+    if k == "tuple":
+        out = set()
+        for x in t[1]:
+            out |= leaves_of(sc, x, seen)
+        return out
     if t[1] in seen:
         return set()
     seen.add(t[1])
@@ -324,6 +402,38 @@ def run_format_family(ctx, budget):
                     douts = {k: outcome(v) for k, v in dps.items()}
                     ctx.count(("fmt-dec", fmt, n, name, show(wire)), n=len(douts))
                     dn = list(douts)
+                    # foreign documents: every decoding entry point must parse the same bytes the same way
+                    base = outcome(lambda: parse_lenient(fmt, wire))
+                    if base[0] == "ok" and all(douts[k] == douts[dn[0]] for k in dn):
+                        for _ in range(3):
+                            doc = perturb(ctx.rng, base[1])
+                            for dump in DUMPS[fmt]:
+                                fw = outcome(lambda: dump(doc))
+                                if fw[0] != "ok":
+                                    continue
+                                fwire = fw[1]
+                                fps = {
+                                    f"D.{f[3]}(b{', dialect=X' if call_kw else ''})": lambda: getattr(D, f[3])(fwire, **call_kw),
+                                    f"{f[6]}(D{', default_dialect=X' if codec_kw else ''}).decode(b)": lambda: Dec(D, **codec_kw).decode(fwire),
+                                }
+                                if not codec_kw:
+                                    fps[f"{f[8]}(b, D)"] = lambda: one_dec(fwire, D)
+                                fouts = {k: outcome(v) for k, v in fps.items()}
+                                ctx.count(("fmt-foreign", fmt, n, name, show(fwire)), n=len(fouts))
+                                ctx.hist("format_foreign_doc", fmt + ":" + list(fouts.values())[0][0])
+                                fn_ = list(fouts)
+                                for k in fn_[1:]:
+                                    if fouts[k] != fouts[fn_[0]]:
+                                        sig = {"kind": "format-family"}
+                                        if sc.placement == "call" and (one_direction_types(sc) & leaves_of(sc, ("data", name))):
+                                            sig = {"kind": "format-dialect-one-direction"}
+                                        ctx.fail(f"{fmt}: decoding entry points parse the same document differently: {fn_[0]} = {show(fouts[fn_[0]])} "
+                                                 f"but {k} = {show(fouts[k])} on {show(fwire)}",
+                                                 {"entry": "format-family", "source": src, "format": fmt, "class": name, "placement": sc.placement,
+                                                  "value": repr(x), "wire": repr(fwire), "a": fn_[0], "b": k, "observed_a": show(fouts[fn_[0]]),
+                                                  "observed_b": show(fouts[k]), "expected": "identical results"},
+                                                 sig)
+                                        break
                     for k in dn[1:]:
                         if douts[k] != douts[dn[0]]:
                             sig = {"kind": "format-family"}
@@ -354,6 +464,12 @@ def replay_format(rep) -> int:
         codec_kw = {"default_dialect": X} if rep["placement"] == "call" else {}
         D = getattr(mod, name)
         x = eval(rep["value"], dict(mod.__dict__, datetime=datetime, UUID=uuid.UUID, bytearray=bytearray))
+        if rep.get("wire"):
+            fwire = eval(rep["wire"])
+            c = outcome(lambda: getattr(D, f[3])(fwire, **call_kw))
+            d = outcome(lambda: Dec(D, **codec_kw).decode(fwire))
+            print("mixin decode:", show(c)); print("codec decode:", show(d))
+            return 1 if c != d else 0
         a = outcome(lambda: getattr(x, f[2])(**call_kw))
         b = outcome(lambda: Enc(D, **codec_kw).encode(x))
         print("mixin:", show(a)); print("codec:", show(b))
